@@ -849,6 +849,12 @@ Interval<To_Boundary, To_Info>::mul_assign(const From1& x, const From2& y) {
                                  UPPER, f_upper(y), f_info(y));
     if (gt(LOWER, to_lower, to_info, LOWER, tmp, tmp_info)) {
       to_lower = tmp;
+      to_info.set_boundary_property(LOWER, SPECIAL,
+                                    tmp_info.get_boundary_property(LOWER,
+                                                                   SPECIAL));
+      to_info.set_boundary_property(LOWER, OPEN,
+                                    tmp_info.get_boundary_property(LOWER,
+                                                                   OPEN));
       rl = tmp_r;
     }
     tmp_info.clear();
@@ -860,6 +866,12 @@ Interval<To_Boundary, To_Info>::mul_assign(const From1& x, const From2& y) {
                                  LOWER, f_lower(y), f_info(y));
     if (lt(UPPER, upper(), to_info, UPPER, tmp, tmp_info)) {
       upper() = tmp;
+      to_info.set_boundary_property(UPPER, SPECIAL,
+                                    tmp_info.get_boundary_property(UPPER,
+                                                                   SPECIAL));
+      to_info.set_boundary_property(UPPER, OPEN,
+                                    tmp_info.get_boundary_property(UPPER,
+                                                                   OPEN));
       ru = tmp_r;
     }
   }
